@@ -1,295 +1,16 @@
 /-
   The textual form of a location (`str(location)`, as stored in `core_location` qualifiers and in the
-  results JSON) is read back by `location_from_string` as the same location — character level (C10).
+  results JSON) is read back by `location_from_string` as the same location (C10).
+  The character-level proof lives in the shared `ASV/Proofs/LocString.lean` (C04 `string_roundtrip`);
+  this file only lifts it from `List Char` to `String`.
 -/
-import ASV.Model.LocString
+import ASV.Proofs.LocString
 namespace ASV
 open ASV
 
-/-! ### characters -/
-
-theorem digit_ne {c : Char} (h : c.isDigit = true) :
-    c ≠ '-' ∧ c ≠ ':' ∧ c ≠ ']' ∧ c ≠ '(' ∧ c ≠ '{' ∧ c ≠ ',' ∧ c ≠ '+' ∧ c ≠ '?' ∧ c ≠ ')' ∧ c ≠ '[' := by
-  refine ⟨?_, ?_, ?_, ?_, ?_, ?_, ?_, ?_, ?_, ?_⟩ <;> (intro e; subst e; revert h; decide)
-
-theorem natChars_digit {n : Nat} {c : Char} (h : c ∈ natChars n) : c.isDigit = true :=
-  Nat.isDigit_of_mem_toDigits (by decide) (by decide) h
-
-theorem natChars_ne_nil (n : Nat) : natChars n ≠ [] := Nat.toDigits_ne_nil
-
-theorem natChars_all_digit (n : Nat) : (natChars n).all Char.isDigit = true := by
-  rw [List.all_eq_true]; intro c hc; exact natChars_digit hc
-
-/-- every character of a printed integer is a digit or the minus sign -/
-theorem intChars_mem {i : Int} {c : Char} (h : c ∈ intChars i) : c = '-' ∨ c.isDigit = true := by
-  unfold intChars at h
-  split at h
-  · rcases List.mem_cons.1 h with h | h
-    · exact Or.inl h
-    · exact Or.inr (natChars_digit h)
-  · exact Or.inr (natChars_digit h)
-
-theorem intChars_ne_nil (i : Int) : intChars i ≠ [] := by
-  unfold intChars; split
-  · simp
-  · exact natChars_ne_nil _
-
-/-- the last character of a printed integer is a digit -/
-theorem intChars_getLast_digit (i : Int) : ((intChars i).getLast (intChars_ne_nil i)).isDigit = true := by
-  have key : ∀ n, ∀ h : natChars n ≠ [], ((natChars n).getLast h).isDigit = true :=
-    fun n h => natChars_digit (List.getLast_mem h)
-  unfold intChars
-  split
-  · rw [List.getLast_cons (natChars_ne_nil _)]; exact key _ _
-  · exact key _ _
-
-/-! ### `int(str(i)) = i` -/
-
-theorem parseInt_natChars (n : Nat) : parseInt (natChars n) = some (n : Int) := by
-  have hne := natChars_ne_nil n
-  have hall := natChars_all_digit n
-  have hval : Nat.ofDigitChars 10 (natChars n) 0 = n := Nat.ofDigitChars_ten_toDigits
-  cases hds : natChars n with
-  | nil => exact absurd hds hne
-  | cons d rest =>
-    have hd : d.isDigit = true := natChars_digit (by rw [hds]; simp)
-    have hd' : d ≠ '-' := (digit_ne hd).1
-    rw [hds] at hall hval
-    unfold parseInt
-    split
-    · rename_i heq; cases heq
-    · rename_i ds heq
-      have : d = '-' := by injection heq with h1 _
-      exact absurd this hd'
-    · rename_i ds h1 h2
-      simp only [hall, if_true, hval]
-
-theorem parseInt_intChars (i : Int) : parseInt (intChars i) = some i := by
-  unfold intChars
-  split
-  · rename_i hneg
-    have hne := natChars_ne_nil i.natAbs
-    have hall := natChars_all_digit i.natAbs
-    have hval : Nat.ofDigitChars 10 (natChars i.natAbs) 0 = i.natAbs := Nat.ofDigitChars_ten_toDigits
-    unfold parseInt
-    have hemp : (natChars i.natAbs).isEmpty = false := by
-      cases h : natChars i.natAbs with
-      | nil => exact absurd h hne
-      | cons _ _ => rfl
-    simp only [hemp, hall, hval, Bool.not_false, Bool.and_self, if_true]
-    congr 1; omega
-  · rename_i hpos
-    rw [parseInt_natChars]; congr 1; omega
-
-/-! ### splitting -/
-
-theorem splitFirst_append (c : Char) (a b : List Char) (h : c ∉ a) : splitFirst c (a ++ c :: b) = some (a, b) := by
-  induction a with
-  | nil => simp [splitFirst]
-  | cons x a ih =>
-    have hx : x ≠ c := fun e => h (by simp [e])
-    have ha : c ∉ a := fun m => h (List.mem_cons_of_mem _ m)
-    simp [splitFirst, hx, ih ha]
-
-/-! ### one part -/
-
-theorem strandChars_mem {s : Strand} {c : Char} (h : c ∈ strandChars s) : c = '(' ∨ c = '+' ∨ c = '-' ∨ c = '?' ∨ c = ')' := by
-  cases s with
-  | fwd => simp [strandChars] at h; rcases h with h | h | h <;> simp [h]
-  | rev => simp [strandChars] at h; rcases h with h | h | h <;> simp [h]
-  | zero => simp [strandChars] at h; rcases h with h | h | h <;> simp [h]
-  | none => simp [strandChars] at h
-
-/-- every character of a printed part -/
-theorem partChars_mem {p : Part} {c : Char} (h : c ∈ partChars p) :
-    c.isDigit = true ∨ c = '[' ∨ c = ':' ∨ c = ']' ∨ c = '(' ∨ c = '+' ∨ c = '-' ∨ c = '?' ∨ c = ')' := by
-  unfold partChars at h
-  simp only [List.mem_cons, List.mem_append, or_assoc] at h
-  rcases h with h | h | h | h | h | h
-  · simp [h]
-  · rcases intChars_mem h with h | h <;> simp [h]
-  · simp [h]
-  · rcases intChars_mem h with h | h <;> simp [h]
-  · simp [h]
-  · rcases strandChars_mem h with h | h | h | h | h <;> simp [h]
-
-theorem partChars_no_comma (p : Part) : ',' ∉ partChars p := by
-  intro h
-  rcases partChars_mem h with h | h | h | h | h | h | h | h | h
-  · exact absurd h (by decide)
-  all_goals exact absurd h (by decide)
-
-theorem partChars_no_brace (p : Part) : '{' ∉ partChars p := by
-  intro h
-  rcases partChars_mem h with h | h | h | h | h | h | h | h | h
-  · exact absurd h (by decide)
-  all_goals exact absurd h (by decide)
-
-theorem colon_not_in_int (i : Int) : ':' ∉ intChars i := by
-  intro h; rcases intChars_mem h with h | h
-  · exact absurd h (by decide)
-  · exact absurd h (by decide)
-
-theorem bracket_not_in_int (i : Int) : ']' ∉ intChars i := by
-  intro h; rcases intChars_mem h with h | h
-  · exact absurd h (by decide)
-  · exact absurd h (by decide)
-
-theorem paren_not_in_int (i : Int) : '(' ∉ intChars i := by
-  intro h; rcases intChars_mem h with h | h
-  · exact absurd h (by decide)
-  · exact absurd h (by decide)
-
-/-- the character before the last one of `X ++ [a, b, c]` is `b` -/
-theorem second_last3 (x : List Char) (a b c : Char) : ((x ++ [a, b, c]).reverse.drop 1).head? = some b := by
-  simp
-
-/-- the character before the closing bracket is the last digit of the end coordinate -/
-theorem second_last_none (x y : List Char) (hy : y ≠ []) :
-    ((x ++ y ++ [']']).reverse.drop 1).head? = some (y.getLast hy) := by
-  simp only [List.reverse_append, List.reverse_cons, List.reverse_nil, List.nil_append, List.singleton_append,
-    List.drop_succ_cons, List.drop_zero]
-  cases hr : y.reverse with
-  | nil => exact absurd (List.reverse_eq_nil_iff.1 hr) hy
-  | cons z zs =>
-    have : y.getLast hy = z := by
-      have := List.getLast_eq_head_reverse (l := y) hy
-      rw [this]; simp [hr]
-    simp [this]
-
-theorem parseSingle_partChars (p : Part) : parseSingle (partChars p) = some p := by
-  obtain ⟨lo, hi, s⟩ := p
-  have h1 : splitFirst ':' (partChars ⟨lo, hi, s⟩) = some ('[' :: intChars lo, intChars hi ++ ']' :: strandChars s) := by
-    have : partChars ⟨lo, hi, s⟩ = ('[' :: intChars lo) ++ ':' :: (intChars hi ++ ']' :: strandChars s) := by
-      simp [partChars]
-    rw [this]
-    apply splitFirst_append
-    intro h
-    rcases List.mem_cons.1 h with h | h
-    · exact absurd h (by decide)
-    · exact colon_not_in_int lo h
-  have h2 : splitFirst ']' (intChars hi ++ ']' :: strandChars s) = some (intChars hi, strandChars s) :=
-    splitFirst_append _ _ _ (bracket_not_in_int hi)
-  unfold parseSingle
-  simp only [h1, h2, Option.bind_some, List.drop_succ_cons, List.drop_zero, parseInt_intChars,
-    bind, pure]
-  cases s with
-  | fwd =>
-    have : partChars ⟨lo, hi, .fwd⟩ = ('[' :: intChars lo ++ ':' :: intChars hi ++ [']']) ++ ['(', '+', ')'] := by
-      simp [partChars, strandChars]
-    rw [this, second_last3]; rfl
-  | rev =>
-    have : partChars ⟨lo, hi, .rev⟩ = ('[' :: intChars lo ++ ':' :: intChars hi ++ [']']) ++ ['(', '-', ')'] := by
-      simp [partChars, strandChars]
-    rw [this, second_last3]; rfl
-  | zero =>
-    have : partChars ⟨lo, hi, .zero⟩ = ('[' :: intChars lo ++ ':' :: intChars hi ++ [']']) ++ ['(', '?', ')'] := by
-      simp [partChars, strandChars]
-    rw [this, second_last3]; rfl
-  | none =>
-    have hform : partChars ⟨lo, hi, .none⟩ = ('[' :: intChars lo ++ [':']) ++ intChars hi ++ [']'] := by
-      simp [partChars, strandChars]
-    have hsl := second_last_none ('[' :: intChars lo ++ [':']) (intChars hi) (intChars_ne_nil hi)
-    have hd := intChars_getLast_digit hi
-    obtain ⟨n1, n2, n3, n4, n5, n6, n7, n8, n9, n10⟩ := digit_ne hd
-    have hnp : (('[' :: intChars lo ++ [':']) ++ intChars hi ++ [']']).contains '(' = false := by
-      rw [List.contains_eq_mem]
-      apply decide_eq_false
-      intro hm
-      rcases List.mem_append.1 hm with hm | hm
-      · rcases List.mem_append.1 hm with hm | hm
-        · rcases List.mem_cons.1 hm with hm | hm
-          · exact absurd hm (by decide)
-          · rcases List.mem_append.1 hm with hm | hm
-            · exact paren_not_in_int lo hm
-            · simp at hm
-        · exact paren_not_in_int hi hm
-      · simp at hm
-    rw [hform]
-    rw [hsl]
-    split
-    · rename_i heq; injection heq with heq; exact absurd heq n1
-    · rename_i heq; injection heq with heq; exact absurd heq n7
-    · rename_i heq; injection heq with heq; exact absurd heq n8
-    · rw [hnp]; simp
-
-/-! ### several parts -/
-
-theorem splitCommaSpace_skip (x acc rest : List Char) (h : ',' ∉ x) :
-    splitCommaSpace acc (x ++ rest) = splitCommaSpace (x.reverse ++ acc) rest := by
-  induction x generalizing acc with
-  | nil => simp
-  | cons c x ih =>
-    have hc : c ≠ ',' := fun e => h (by simp [e])
-    have hx : ',' ∉ x := fun m => h (List.mem_cons_of_mem _ m)
-    have step : splitCommaSpace acc (c :: (x ++ rest)) = splitCommaSpace (c :: acc) (x ++ rest) := by
-      rw [splitCommaSpace.eq_def]
-      split
-      · rename_i heq; cases heq
-      · rename_i heq; injection heq with h1 _; exact absurd h1 hc
-      · rename_i heq; injection heq with h1 h2; subst h1; subst h2; rfl
-    rw [List.cons_append, step, ih _ hx]
-    simp
-
-theorem splitCommaSpace_join (x : List Char) (xs : List (List Char)) (acc : List Char)
-    (h : ∀ y ∈ x :: xs, ',' ∉ y) :
-    splitCommaSpace acc (joinParts (x :: xs)) = (acc.reverse ++ x) :: xs := by
-  induction xs generalizing x acc with
-  | nil =>
-    have := splitCommaSpace_skip x acc [] (h x (by simp))
-    simp only [List.append_nil] at this
-    simp [joinParts, this, splitCommaSpace]
-  | cons y ys ih =>
-    have hx := h x (by simp)
-    have hrest : ∀ z ∈ y :: ys, ',' ∉ z := fun z hz => h z (List.mem_cons_of_mem _ hz)
-    have : joinParts (x :: y :: ys) = x ++ (',' :: ' ' :: joinParts (y :: ys)) := by simp [joinParts]
-    rw [this, splitCommaSpace_skip _ _ _ hx]
-    rw [splitCommaSpace.eq_def]
-    simp only [List.reverse_append, List.reverse_reverse]
-    rw [ih y [] hrest]
-    simp
-
-theorem mapM_parseSingle (ps : List Part) : (ps.map partChars).mapM parseSingle = some ps := by
-  induction ps with
-  | nil => rfl
-  | cons p ps ih => simp [List.mapM_cons, parseSingle_partChars, ih]
-
-/-- `location_from_string(str(location)) == location` for every location with at least one part -/
-theorem locFromChars_locChars (l : Loc) (h : l.parts ≠ []) : locFromChars (locChars l) = some l := by
-  cases l with
-  | simple p =>
-    have hb : (partChars p).contains '{' = false := by
-      rw [List.contains_eq_mem]; exact decide_eq_false (partChars_no_brace p)
-    simp [locFromChars, locChars, parseSingle_partChars]
-    intro hm; exact absurd hm (partChars_no_brace p)
-  | compound ps =>
-    cases ps with
-    | nil => exact absurd rfl h
-    | cons p ps =>
-      have hform : locChars (.compound (p :: ps)) = ['j', 'o', 'i', 'n'] ++ '{' :: (joinParts ((p :: ps).map partChars) ++ ['}']) := by
-        simp [locChars]
-      have hc : (locChars (.compound (p :: ps))).contains '{' = true := by
-        rw [hform, List.contains_eq_mem]; simp
-      have hdl : (locChars (.compound (p :: ps))).dropLast = ['j', 'o', 'i', 'n'] ++ '{' :: joinParts ((p :: ps).map partChars) := by
-        rw [hform]
-        have : ['j', 'o', 'i', 'n'] ++ '{' :: (joinParts ((p :: ps).map partChars) ++ ['}'])
-            = (['j', 'o', 'i', 'n'] ++ '{' :: joinParts ((p :: ps).map partChars)) ++ ['}'] := by simp
-        rw [this, List.dropLast_concat]
-      have hs : splitFirst '{' (['j', 'o', 'i', 'n'] ++ '{' :: joinParts ((p :: ps).map partChars))
-          = some (['j', 'o', 'i', 'n'], joinParts ((p :: ps).map partChars)) :=
-        splitFirst_append _ _ _ (by decide)
-      have hj : splitCommaSpace [] (joinParts ((p :: ps).map partChars)) = (p :: ps).map partChars := by
-        have := splitCommaSpace_join (partChars p) (ps.map partChars) [] (by
-          intro y hy
-          rcases List.mem_cons.1 hy with e | hm
-          · subst e; exact partChars_no_comma p
-          · obtain ⟨q, _, rfl⟩ := List.mem_map.1 hm; exact partChars_no_comma q)
-        simpa using this
-      unfold locFromChars
-      simp only [hc, Bool.not_true, Bool.false_eq_true, if_false, hdl, hs, hj, Option.bind_eq_bind, Option.bind_some,
-        mapM_parseSingle, bind, pure]
-
 theorem locFromString_locToString (l : Loc) (h : l.parts ≠ []) : locFromString (locToString l) = some l := by
-  simp [locFromString, locToString, locFromChars_locChars l h]
+  unfold locFromString locToString
+  rw [String.toList_ofList]
+  exact locFromChars_locChars l h
 
 end ASV
